@@ -7,58 +7,98 @@ import subprocess
 HERE = os.path.dirname(os.path.dirname(os.path.abspath(__file__)))
 
 TECH = {
-    "C01": "MIR who-may-call + dominance + dataflow rules (rustc_private driver)",
-    "C02": "MIR must-precede (choice point before first shared effect) over the primitive API, guard-dependence slices",
-    "C03": "MIR single-writer, guard-dependence slice and must-follow rules",
+    "C01": "MIR who-may-call + dominance + dataflow rules (rustc_private driver), deny-list scan for ambient nondeterminism",
+    "C02": "MIR must-precede (choice point before first shared access) fixed point over the primitive API + guard-dependence slices",
+    "C03": "MIR single-writer, flow-sensitive guard-dependence slice and must-follow (block => yield) rules",
     "C04": "permit typestate abstract interpretation over MIR + who-may / dominance / atomic-window rules",
-    "C05": "MIR required-effect table: dominance, must-follow and single-writer rules",
-    "C06": "MIR required-effect table for mpsc: FIFO ends, block=>yield, sibling agreement",
-    "C07": "MIR ordering (dominance) rules in thread_fn/join/storage + compile_fail witnesses",
-    "C08": "MIR single-call-site, argument provenance and wrapper-transparency rules",
-    "C10": "MIR deny-list reachability and seed dataflow rules over the scheduler crate",
-    "C12": "MIR persist-before-raise dominance, closure capture type facts, absence rules",
+    "C05": "MIR required-effect table: dominance, loop-membership, guard-dependence and single-writer rules",
+    "C06": "MIR required-effect table for mpsc: FIFO ends, re-check after wake, sibling agreement of Drop/Clone impls",
+    "C07": "MIR ordering (dominance) rules in thread_fn/join/storage + compile_fail witness",
+    "C08": "MIR single-call-site, argument provenance and wrapper-transparency rules + compile_fail witness",
+    "C10": "MIR deny-list reachability and seed dataflow rules over every scheduler",
+    "C12": "MIR persist-before-raise dominance, thread-local dependence of the panic hook, absence rules",
     "C13": "MIR must-precede (bound consulted before every append) and who-may rules",
-    "C14": "static/thread_local inventory from type facts + reset-on-entry reachability",
-    "C15": "MIR happens-before edge table: must-call of clock operations on success paths",
+    "C14": "static/thread_local inventory from type facts + reset-on-entry must-precede / cleanup must-follow",
+    "C15": "MIR happens-before edge table: clock operations required on the success path of each synchronising operation",
     "C16": "MIR totality (no panicking construct reachable) + writer/reader dataflow agreement",
-    "C17": "MIR poll-loop shape (sibling agreement), atomic-window and must-follow rules + compile_fail witness",
-    "C18": "MIR flag/queue pairing, single-writer, cancel-path must-call and guard-dependence rules",
-    "C19": "permit typestate abstract interpretation over pre-state-machine async MIR + sibling agreement",
-    "C20": "permit typestate vs. lock_api table, one-lock-per-operation, hasher provenance, RNG reachability",
+    "C17": "MIR poll-loop shape (sibling agreement), atomic-window, must-follow rules + compile_fail witness",
+    "C18": "MIR flag/queue pairing, single-writer, cancel-path and guard-dependence rules",
+    "C19": "permit typestate abstract interpretation over pre-state-machine async MIR + sibling agreement of receive paths",
+    "C20": "permit typestate vs. lock_api table, one-lock-per-operation, hasher provenance, RNG reachability + compile_fail witness",
 }
 
-LEVEL_TEXT = {
-    "C16": ("Decides decoder totality for every input string by showing that no panicking construct is reachable on any path of "
-            "deserialize_schedule and its in-crate callees, and that the writer's and reader's header tables agree; tests only sample strings.",
-            "structural clauses only: value-level round trip for all schedules is not decided; external hex/bitvec callees on the allow-list are trusted"),
-    "C04": ("Decides, for every path of the Mutex/RwLock API and every parameter value, that guards are built only while holding exactly "
-            "what their Drop releases and that failed attempts hold nothing; decides that atomic operations are one step after one choice point.",
-            "structural clauses only: returned values of atomics and SC total order are not decided; BatchSemaphore semantics trusted (C18)"),
-    "C19": ("Decides sibling agreement of all receive paths on capacity return, send-path accounting, FIFO fairness constant and guard/permit "
+# (what assurance, what is assumed / not decided)
+LEVEL = {
+    "C01": ("Decides, over every path of the runtime (not over sampled programs), that each scheduler decision and each random draw is appended to the "
+            "recorded schedule before it takes effect, that the recorded seed is the seed the data source and choice RNG use, that the replay cursor "
+            "advances per served step, and that no ambient nondeterminism or hash-order iteration exists in the engine/std/scheduler crates.",
+            "structural clauses only: equality of two concrete executions is not decided; Pcg64Mcg/rand determinism and rustc's MIR are trusted"),
+    "C02": ("Decides the source's own necessary condition (`switch` before any visible operation) for the whole primitive API (~340 functions): on every "
+            "path to the first shared access there is a choice point, or the function is a table entry with the commuting reason given in the source; "
+            "the guards of the two double-yield optimisations and the pre-exit choice point are checked by slices. 8 genuine gaps are known findings.",
+            "necessary condition only: that every SC outcome of every program is reachable is not decided; commutativity claims of table entries are taken from source comments"),
+    "C03": ("Decides single ownership of task-state transitions, that the Finished/Deadlock decisions depend on runnable+detached and not on "
+            "spurious-wake eligibility, and that every self-block in std/engine is followed by a yield on all paths.",
+            "structural clauses only: exactness of verdicts for all programs is not decided (permit leaks causing false deadlocks are decided by C04/C19)"),
+    "C04": ("Decides, for every path of the Mutex/RwLock API and every parameter value, that guards are built only while holding exactly what their Drop "
+            "releases and that failed attempts hold nothing; decides that atomic operations are one step after one choice point.",
+            "structural clauses only: returned values of atomics and the SC total order are not decided; BatchSemaphore semantics trusted (C18)"),
+    "C05": ("Decides a table of necessary effects of Condvar/Barrier/Once/park (release+enqueue before block, re-lock on return, unblock inside the waiter "
+            "loop, leader token for the pre-increment epoch, initializer before flag/Complete, ParkState single owner).",
+            "narrow: absence of lost or phantom wake-ups over all interleavings (the bulk of the property) is NOT decided"),
+    "C06": ("Decides FIFO ends, disconnection re-check after wake-up, try_send never blocking, hand-off wake-ups and sibling agreement of the Drop/Clone impls of mpsc.",
+            "narrow: capacity arithmetic and exactly-once delivery over all histories are not decided"),
+    "C07": ("Decides the order closure -> TLS destructors -> result -> wake joiner in thread_fn, TLS destruction order and tombstones, scope's 1->0 wake, task "
+            "ids never reused; thorough tier adds a compile_fail witness that join consumes the handle.",
+            "structural clauses only: schedule-dependent join/exit orderings are not decided"),
+    "C08": ("Decides the single consultation site, the provenance of all three arguments, that the answer is what runs, and that every wrapper scheduler forwards "
+            "arguments and result unchanged; thorough tier adds a compile_fail witness that schedulers cannot mutate tasks.",
+            "structural clauses only: non-emptiness/distinctness of the offered list as runtime facts follow from invariants asserted in debug builds"),
+    "C10": ("Decides that all randomness of every scheduler flows from the per-execution seed, that the recorded seed reproduces an iteration, and that "
+            "Random/URW choose over the full offered slice.",
+            "structural clauses only: statistical uniformity and eventual coverage are trusted to rand"),
+    "C12": ("Decides persist-before-raise, that the panic hook uses the current run's configuration, per-run reset of the duplicate marker, silence of the None / "
+            "ContinueAfter paths, payload identity, create_new files and portfolio re-raise.",
+            "structural clauses only: that the emitted schedule reproduces the failure is C01's concern"),
+    "C13": ("Decides that the step bound is consulted before every append of a task step and that ContinueAfter stops silently; the unbounded random-draw append is a known finding.",
+            "narrow: off-by-one of the comparison and iteration arithmetic are not decided"),
+    "C14": ("Decides that every static/thread-local with interior mutability in the runtime crates is reset per execution, scoped, or allow-listed with a reason; that "
+            "ExecutionState is built fresh; that cleanup is reached and complete; that stacks are recycled only when clean.",
+            "structural clauses only: behavioural equality of an iteration with its stand-alone replay is not decided"),
+    "C15": ("Decides, for each happens-before edge of the statement, that the operation performs the clock increment/merge on its success path, and monotonicity of update/increment.",
+            "necessary conditions only: absence of spurious orderings and target-clock replay are not decided"),
+    "C16": ("Decides decoder totality for every input string by showing that no panicking construct is reachable on any path of deserialize_schedule and its in-crate "
+            "callees, and that the writer's and reader's header tables agree; tests only sample strings.",
+            "structural clauses only: value-level round trip for all schedules is not decided; allow-listed hex/bitvec callees are trusted"),
+    "C17": ("Decides the poll-loop shape of all three executors (no choice point between poll and sleep, yield after sleep), that wake always records, result-before-wake, "
+            "and the abort/detach paths; thorough tier adds a compile_fail witness for exactly-once delivery.",
+            "structural clauses only: lost wake-ups inside arbitrary user futures are not decided"),
+    "C18": ("Decides the queue/flag pairing invariants of the source, single writers of the permit count, the cancel path and the fair-admission guard.",
+            "narrow: conservation arithmetic and grant order over all histories are not decided"),
+    "C19": ("Decides sibling agreement of all receive paths on capacity return, send-path accounting, the FIFO fairness constant and guard/permit "
             "accounting of the tokio Mutex/RwLock/Semaphore on every path of the wrapper code.",
             "narrow: Notify/watch/oneshot contracts and deadlock freedom of arbitrary tokio programs are not decided"),
+    "C20": ("Decides that every lock_api raw method of the parking_lot replacement has exactly the permit effects of the documented modelling (incl. rollback of "
+            "failed try_*), one lock acquisition per DashMap operation, fixed-hasher provenance of the deterministic collections, RNG delegation and per-execution lazy statics.",
+            "narrow: upgrade/downgrade interleavings and DashMap linearizability as behaviours are not decided"),
 }
-
-# properties with a check implemented (kept in sync with rules/*.py)
-IMPLEMENTED = ["C16", "C04", "C19", "C20", "C12", "C14", "C02", "C01", "C08", "C10", "C13", "C03", "C17", "C18", "C15", "C05", "C06", "C07"]
 
 NOT_APPLICABLE = {
     "C09": "DFS exhaustiveness/uniqueness is index arithmetic over a run-time stack for all tree shapes; no ownership/ordering/dataflow "
-           "rule distinguishes a correct DFS from an off-by-one one (its fixed-data-stream clause is decided under C01.R3)",
+           "rule distinguishes a correct DFS from an off-by-one one (its fixed-data-stream clause is decided under C01.R3, its determinism clause under C10.R1)",
     "C11": "priority discipline, change-point range and the 1/(n*k^(d-1)) bound are numeric/statistical claims over runtime values; "
-           "the determinism clause is decided by the C10 rule, which also runs over PctScheduler",
+           "the determinism clause is decided by C10.R1, which also runs over PctScheduler",
 }
 
 
 def main():
     props = [json.loads(l)["id"] for l in open(os.path.join(HERE, "properties.jsonl"))]
+    implemented = [p for p in props if os.path.exists(os.path.join(HERE, "rules", p.lower() + ".py")) and p not in NOT_APPLICABLE]
     commits = subprocess.run(["git", "-C", "/repo", "log", "--format=%h %s"], stdout=subprocess.PIPE, text=True).stdout.splitlines()
     fix_commits = [c.split()[0] for c in commits if c.split(" ", 1)[1].startswith("fix:")]
     checks = []
-    for p in props:
-        if p not in IMPLEMENTED:
-            continue
-        text, note = LEVEL_TEXT.get(p, ("static rules over the MIR of the current tree; see DESIGN.md", "structural clauses only"))
+    for p in implemented:
+        text, note = LEVEL[p]
         checks.append({
             "property_id": p,
             "quick_cmd": "./check %s --tier quick" % p,
@@ -70,11 +110,7 @@ def main():
             "level_note": note,
             "technique": TECH[p],
         })
-    na = []
-    for p in props:
-        if p in IMPLEMENTED:
-            continue
-        na.append({"property_id": p, "reason": NOT_APPLICABLE.get(p, "static check designed in DESIGN.md but not implemented yet in this revision (not claimed)")})
+    na = [{"property_id": p, "reason": NOT_APPLICABLE.get(p, "no static check implemented")} for p in props if p not in implemented]
     m = {
         "version": 1,
         "setup_cmd": "cd engine/driver && CARGO_NET_OFFLINE=true cargo +nightly build --release --offline",
@@ -86,9 +122,10 @@ def main():
             "add_only": True,
         },
         "engines": [
-            {"name": "mir-facts", "path": "engine/", "serves_properties": IMPLEMENTED,
+            {"name": "mir-facts", "path": "engine/", "serves_properties": implemented,
              "kind_free_text": "rustc_private MIR fact extraction (engine/driver) + python rule engine (engine/*.py, rules/*.py): CFG/dominance/"
-                               "must-call summaries, slices, who-may tables, permit typestate abstract interpreter"},
+                               "must-call summaries, flow-sensitive slices, who-may tables, permit typestate abstract interpreter; "
+                               "thorough tier adds rustdoc compile_fail witnesses (witness/) and the checker self-test on planted changes (selftest/, seeded/)"},
         ],
         "checks": checks,
         "not_applicable": na,
